@@ -177,7 +177,7 @@ fn geom_case(id: String, kind: &str, rt: &Route, parts: &[Vec<u32>], fin: bool, 
 /// so after an Err the object is neither the old path nor a consistent longer one.  Observed and
 /// named (known-finding proposal in design/C06.md); the property text speaks of accepted
 /// extensions, so this is not counted as a violation.
-fn err_atomicity_case(id: String, rt: &Route, good: &[u32], bad: &[u32]) -> Option<Case> {
+fn err_atomicity_case(id: String, rt: &Route, good: &[u32], bad: &[u32], rejected_at_first_link: bool) -> Option<Case> {
     let net = rt.net.clone(); let tp = rt.tp; let (g, b) = (good.to_vec(), bad.to_vec());
     let r = catch(move || {
         let mut p = PathTpc::new(tp);
@@ -192,12 +192,17 @@ fn err_atomicity_case(id: String, rt: &Route, good: &[u32], bad: &[u32]) -> Opti
     tags.push(format!("after_err:unchanged={}", same));
     tags.push(format!("after_err:counts_consistent={}", consistent));
     let mut known = vec![];
-    if !same || !consistent {
+    let mut fails = vec![];
+    if rejected_at_first_link {
+        // nothing of the call was acceptable: the path must be exactly what it was (it is, on the unchanged tree)
+        tags.push("rejected_at:first_link_of_the_call".into());
+        if !same { fails.push(format!("a call rejected at its FIRST link changed the path (index counts consistent afterwards: {})", consistent)); }
+    } else if !same || !consistent {
         known.push("after a rejected extend() the PathTpc is left partially extended (link points / speed points of the accepted prefix added, grades / curves not): not atomic".to_string());
     }
     let mut o = Outs::new(); o.b("after_err_unchanged", same); o.b("after_err_counts_consistent", consistent);
     Some(Case { id, kind: "err_atomicity".into(), coq: String::new(), outcome: Outcome::Ok(o), tags,
-        input: net_json(&rt.net, &rt.tp, &[good.to_vec(), bad.to_vec()]), oracle_fail: vec![], known, in_domain: true })
+        input: net_json(&rt.net, &rt.tp, &[good.to_vec(), bad.to_vec()]), oracle_fail: fails, known, in_domain: true })
 }
 
 /// PathTpc::clear(offset_back) after the route has been supplied: the links wholly behind offset_back are dropped
@@ -284,7 +289,10 @@ pub fn run(seed: u64, n: usize, sink: &mut Sink) {
                     // accepted prefix [1], then a rejected continuation that starts contiguously and breaks later
                     let good = vec![rt.path[0]];
                     let mut badc: Vec<u32> = vec![rt.path[1]]; badc.push(rt.path[0]);
-                    if let Some(c) = err_atomicity_case(format!("err_atomicity/{}", t), &rt, &good, &badc) { sink.put(c); made += 1; }
+                    if let Some(c) = err_atomicity_case(format!("err_atomicity/{}", t), &rt, &good, &badc, false) { sink.put(c); made += 1; }
+                    // ... and a continuation whose very first link does not follow the path's last link
+                    let bad1: Vec<u32> = vec![rt.path[0], rt.path[1]];
+                    if let Some(c) = err_atomicity_case(format!("err_atomicity_first/{}", t), &rt, &good, &bad1, true) { sink.put(c); made += 1; }
                 }
             }
             // ---- data outside the theorem's hypotheses (rejected by network validation): model-vs-code only
